@@ -475,6 +475,11 @@ func c20Stream(c *Ctx) {
 				}
 			}
 		})
+		if !hasCtr && len(f.Params) >= 3 {
+			if _, ok4 := be32ByteStores(bounds.NewCtx(f), f, f.Params[2]); ok4 {
+				hasCtr = true
+			}
+		}
 		r.Check(hasCopy && hasCtr, "C20.stream", "C20.stream/generateSegmentNonce", p.FuncPos(f), "segment nonce is not prefix || 32-bit counter || flag", "copy(nonce, prefix); PutUint32(counter)")
 	}
 }
